@@ -154,10 +154,40 @@ Definition run_ops (a : sx) : sx :=
   | _ => sx_err "ops"
   end.
 
+(* c05.addr: (((workchain address value) ...)): keys of tlb.AddressWithWorkchain.
+   FixedSize() is 288 but the reflection encoder writes int8 + 256 bits = 264
+   bits (finding F19); Compare = uint32(int8 workchain), then bytes = bit order
+   of the 264-bit key.  -> (cell decode-result) *)
+Fixpoint addr_items (l : list sx) : option (list (bits * N)) :=
+  match l with
+  | [] => Some []
+  | SL [SZ wc; SBytes a; SN v] :: t =>
+      match addr_items t with
+      | Some m => Some ((bits_of 8 (Z.to_N (wc mod 256)) ++ flat_map (bits_of 8) a, v) :: m)
+      | None => None
+      end
+  | _ => None
+  end.
+
+Definition run_addr (a : sx) : sx :=
+  match a with
+  | SL [SL l] =>
+      match addr_items l with
+      | Some l =>
+          match encode_e venc32 288 (puts bits_eqb bits_ltb l []) with
+          | Ok c => SL [sx_cell c; sx_res sx_items (decode_e vdec32 288 c)]
+          | _ => SA "err"
+          end
+      | None => sx_err "addr items"
+      end
+  | _ => sx_err "addr"
+  end.
+
 Definition run (name : string) (a : sx) : sx :=
   let is x := String.eqb name x in
   if is "c05.encode" then run_encode a
   else if is "c05.decode" then run_decode a
   else if is "c05.cells" then run_cells a
   else if is "c05.ops" then run_ops a
+  else if is "c05.addr" then run_addr a
   else sx_err "unknown case kind".
